@@ -149,6 +149,11 @@ def light_checks(sig, viol):
         viol('replace-loses-provenance-or-annotation', {'signature': str(sig), 'sources': alg.src_show(r)}, {})
     if [type(p) for p in r.parameters.values()] != [_S.UpgradedParameter] * len(r.parameters):
         viol('replace-loses-type', {'signature': str(sig), 'parameters': [type(p).__name__ for p in r.parameters.values()]}, {})
+    # parameters may be given as any iterable, as for inspect.Signature
+    it = safe(lambda: sig.replace(parameters=(p for p in sig.parameters.values())))
+    if it[0] != 'ok' or list(it[1].parameters) != list(sig.parameters):
+        viol('replace-ignores-override', {'signature': str(sig), 'what': 'parameters given as a generator',
+                                          'result': str(it[1]) if it[0] == 'ok' else repr(it)}, {})
     marker = {'+depths': {}, 'marker': [len]}
     r2 = safe(lambda: sig.replace(sources=marker))
     if r2[0] != 'ok' or r2[1].sources is not marker:
